@@ -13,7 +13,8 @@ compares and cuts plain strings: `jidToBareJid` = up to the first '/').
 
 Since repo commits 73b9a89 (jabber:client elements before authentication end the stream with `not-authorized`)
 and e590a14 (a checker reply is a child of the SASL object that asked for it and dies with it) the model has no
-"unfixed" mode any more.  No proofs here.
+"unfixed" mode any more.  User names are NOT checked for '/', '@' or emptiness (the code does not; finding
+C16:username-with-slash).  Server-to-server (QXmppIncomingServer, dialback) is not modelled.  No proofs here.
 -/
 namespace Qx.C16
 
@@ -469,8 +470,15 @@ def route (cfg : Cfg) (s : Server) (to : List Char) : Option (List Nat) :=
     if found = [] then none else some found
   else none
 
-/-- sockets that are still open among `found` (`sendData` on a closed socket writes nothing) -/
+/-- sockets that are still open among `found` -/
 def alive (s : Server) (found : List Nat) : List Nat := found.filter fun d => !(s.conns d).closed
+
+/-- The routing tables keep entries of a connection under jids it no longer has (a second bind, a new `<auth/>`
+after a bind) and `_q_clientDisconnected` removes only the entries of the *current* jid: such an entry outlives
+its connection.  Using it calls `sendData` on a deleted `QXmppIncomingClient` — undefined behaviour in the C++
+(observed: SIGSEGV), marked `ub` here; the open sockets among `found` are still written to first or after. -/
+def writeTo (s : Server) (src : Nat) (found : List Nat) (mk : Nat → Out) : List Out :=
+  (if found.any (fun d => (s.conns d).closed) then [.ub src] else []) ++ (alive s found).map mk
 
 /-- `handleStanza(server, element)` with no extension claiming it -/
 def handleStanza (cfg : Cfg) (s : Server) (src : Nat) (st : Stanza) : List Out :=
@@ -479,18 +487,18 @@ def handleStanza (cfg : Cfg) (s : Server) (src : Nat) (st : Stanza) : List Out :
     | .iq t =>
       if t = .get ∨ t = .set then
         match route cfg s st.sender with
-        | some found => (alive s found).map fun d => .reply src d (.iqError st.id cfg.domain st.sender .featureNotImplemented)
+        | some found => writeTo s src found fun d => .reply src d (.iqError st.id cfg.domain st.sender .featureNotImplemented)
         | none => []
       else []
     | _ => []
   else
     match route cfg s st.to with
-    | some found => (alive s found).map fun d => .deliver src d st
+    | some found => writeTo s src found fun d => .deliver src d st
     | none =>
       match st.kind with
       | .iq _ =>
         match route cfg s st.sender with
-        | some found => (alive s found).map fun d => .reply src d (.iqError st.id st.to st.sender .serviceUnavailable)
+        | some found => writeTo s src found fun d => .reply src d (.iqError st.id st.to st.sender .serviceUnavailable)
         | none => []
       | _ => []
 
@@ -514,6 +522,7 @@ def register (s : Server) (c : Nat) : Server × List Out :=
         let s1 := setConn s o { s.conns o with closed := true, pending := [] }
         let r := unregister s1 o
         (r.1, [.send o (.streamError .conflict), .send o .streamEnd] ++ r.2)
+      else if o ≠ c then (s, [.ub c])   -- `old->sendData(...)` on the deleted owner of a stale entry
       else (s, [])
     | none => (s, [])
   let s2 := kick.1
